@@ -320,6 +320,32 @@ class Real:
             k('.cc(cch)')
         return text, r
 
+    def w_many_r(self, vals, sep, extra=2):
+        """several values written with .w to ONE output channel (separator written with .d), then read
+        back one by one with successive .r() on one input channel, plus `extra` reads past the end"""
+        k = self.klong
+        k["csep"] = sep
+        k('cch::.oc(cpath);.tc(cch)')
+        try:
+            for v in vals:
+                k["cval"] = v
+                k('.w(cval);.d(csep)')
+        finally:
+            k('.cc(cch)')
+        with open(self.path, encoding="utf-8", newline="") as f:
+            text = f.read()
+        k('cch::.ic(cpath);.fc(cch)')
+        out = []
+        try:
+            for _ in range(len(vals) + extra):
+                try:
+                    out.append(("v", k('.r()')))
+                except Exception as e:
+                    out.append(("x", f"{type(e).__name__}: {e}"))
+        finally:
+            k('.cc(cch)')
+        return text, out
+
     def format_form(self, v):
         self.klong["cx"] = v
         return self.klong("$cx"), self.klong("cx:$$cx")
@@ -732,6 +758,84 @@ def run_history(ctx, real, drv, h):
     return False
 
 
+# --------------------------------------------------------------------------- several objects in one file
+
+def files(ctx):
+    """(values, separator): 3-7 values of different kinds and lengths written to one file"""
+    quick = ctx.tier == "quick"
+    rng = ctx.rng
+    long_s = S(('say "hi" [1 2] :{x} 0c" ' * 14) + "end\nof text")
+    long_l = L([I(n * 37 - 900) for n in range(120)])
+    deep = D([[S("k"), L([I(1), D([[C('x'), S('"')], [Y("s"), L([R(1.5), R(-1e-7)])]])])], [I(-1), S("v v")]])
+    fam = [
+        [I(-5), S("a b"), L([I(1), I(2), I(3)]), Y("foo"), D([[I(1), I(2)]]), R(1.5), C(' ')],
+        [long_s, I(7), long_l, S("x"), deep, I(-2), L([I(1), I(2)])],
+        [S(""), L([]), D([]), C('"'), R(-1e-7), L([L([L([S("x")])])])],
+        [S("line1\nline2"), L([S("a\nb"), I(1)]), I(-17), C('\n'), Y("a.b"), S("]")],
+        [I(1), I(2), I(3)],
+        [L([I(-1)]), L([I(-2)]), L([I(-3)]), L([I(-4)]), L([I(-5)]), L([I(-6)])],
+        [deep, deep, long_l, long_s, S("[")],
+    ]
+    for vals in fam:
+        yield vals, " "
+    yield fam[0], "  "
+    yield fam[1], "   "
+    for _ in range(12 if quick else 300):
+        vals = []
+        while len(vals) < rng.choice([3, 4, 5, 6]):
+            v = rand_value(rng, 2)
+            if json.dumps(v, ensure_ascii=False).isascii() and case_class(v) != "nonfinite":
+                vals.append(v)
+        yield vals, rng.choice([" ", " ", "  "])
+    # text outside ASCII before a later object (.r repositions with character counts on a byte offset)
+    yield [S("größe"), Y("foo"), I(7), S("x"), I(-2)], " "
+    yield [Y("λ"), L([I(1), I(2)]), C('名'), I(3), S("tail")], " "
+
+
+def run_file(ctx, real, vals, sep):
+    be = real.be
+    case = dict(kind="file", values=vals, sep=sep,
+                note="write all values with .w (separator with .d) to one file, read them back with successive .r()")
+    try:
+        vs = [build(x, be) for x in vals]
+        cs = [canon(v) for v in vs]
+        texts = [real.write(v) for v in vs]
+    except Exception as e:
+        ctx.oracle_fail("rfile:build", case, "values are written", f"{type(e).__name__}: {e}")
+        return
+    want = "".join(t + sep for t in texts)
+    ctx.count(("file", json.dumps(cs), sep))
+    ctx.bump("path:multi-object-file")
+    try:
+        text, out = real.w_many_r(vs, sep)
+    except Exception as e:
+        ctx.oracle_fail("rfile:raises", case, "the file is written and read", f"{type(e).__name__}: {e}")
+        return
+    if text != want:
+        ctx.oracle_fail("wfile:text", case, want[:300], text[:300], ".w to one channel does not write the readable forms one after the other")
+        return
+    for i, (v, c0, t) in enumerate(zip(vs, cs, texts)):
+        tag, r = out[i]
+        nonascii = not want[:want.index(t, sum(len(x) + len(sep) for x in texts[:i]))].isascii() if i else False
+        key = "rfile:after-non-ascii-text" if nonascii else f"rfile:{case_class(vals[i])}"
+        has_dict = contains(c0, lambda s: s[0] == "D")
+        try:
+            good = tag == "v" and real.match(v, r, has_dict) and same_kinds(c0, r) and real.write(r) == t
+        except Exception:
+            good = False
+        if not good:
+            ctx.oracle_fail(key, case, f"object {i + 1} of the file reads back as {json.dumps(c0)}",
+                            (f"read {i + 1} returned {show(r)}" if tag == "v" else f"read {i + 1} raised {r}"),
+                            "successive .r() on one channel do not return the objects written to it")
+            return
+    for j, (tag, r) in enumerate(out[len(vs):]):
+        if tag != "v" or r is not None:
+            ctx.oracle_fail("rfile:eof" if want.isascii() else "rfile:after-non-ascii-text", case, "nothing more to read after the last object",
+                            f"read {len(vs) + j + 1} returned {show(r) if tag == 'v' else r}",
+                            ".r() past the last object does not report the end of the input")
+            return
+
+
 # --------------------------------------------------------------------------- entry
 
 def _common(ctx):
@@ -744,7 +848,8 @@ def _common(ctx):
                 "value: kg_write -> .rs (and .w/.r for a subset) on the real interpreter and the Lean writer/reader; for lists and "
                 "dictionaries (history, corpus, a third of the universe) also read -> change the value read in place -> read the "
                 "same text again: the original value again, no object shared between read-backs or with the value written. "
-                "distinct = distinct values as Klong holds them; non-trivial = not an empty string / character / symbol atom")
+                "Also files with 3-7 objects of different kinds and lengths written to one channel and read back by successive "
+                ".r() (each object compared, then the end of input). distinct = distinct values as Klong holds them; non-trivial = not an empty string / character / symbol atom")
     ctx.assumptions += [
         "float(repr(x)) == x for finite floats and str(int)/int(str) are CPython's; reals are carried as tokens",
         "values are taken as Klong constructs them (lists through kg_asarray): a regular all-numeric nest holds only "
@@ -786,6 +891,8 @@ def run(ctx):
             # what is written depends on what was written before: single values of the universe could not
             # be replayed on their own, the history is the failing input
             return
+        for vals, sep in files(ctx):
+            run_file(ctx, real, vals, sep)
         cdir = common.CORPUS / "C11"
         if cdir.exists():
             for p in sorted(cdir.glob("*.json")):
@@ -815,6 +922,8 @@ def replay(ctx, case):
     try:
         if c.get("kind") == "history":
             run_history(ctx, real, drv, c["values"])
+        elif c.get("kind") == "file":
+            run_file(ctx, real, c["values"], c["sep"])
         elif c.get("kind") == "alias":
             run_case(ctx, real, drv, c["value"], do_file=True, label="replay", alias=True)
         else:
